@@ -896,6 +896,7 @@ size_t ZSTD_decompressionMargin(void const* src, size_t srcSize)
 size_t ZSTD_insertBlock(ZSTD_DCtx* dctx, const void* blockStart, size_t blockSize)
 {
     DEBUGLOG(5, "ZSTD_insertBlock: %u bytes", (unsigned)blockSize);
+    if (blockSize == 0) return 0;   /* nothing inserted : ZSTD_checkContinuity() ignores an empty block, the history must not move either */
     ZSTD_checkContinuity(dctx, blockStart, blockSize);
     dctx->previousDstEnd = (const char*)blockStart + blockSize;
     return blockSize;
